@@ -10,6 +10,47 @@ COMMON_NOTE = ("Trusted base: pyvc engine (AST transform T1-T3 of the real sourc
                "lift to C), A3 (integer powers), A4 (path forking via z3), A5 (numpy shim contracts, listed per run in evidence.trusted_base). ")
 
 CLAIMED = {
+    "C07": dict(
+        category="proof",
+        text=("For each exact non-singlet kernel the returned term is shown to be exp(X) with dX/da1 * beta_n(a1) = gamma_n(a1) and X(a0,a0)=0 "
+              "as rational-function identities in (a0,a1,gamma_k,beta_k) (orders 1-3 with arbitrary real beta vector; order 4 with the cubic "
+              "roots replaced by the contract of roots() via a Vieta parametrisation); the dispatcher is proved to hand the literature beta "
+              "vector to the right kernel for nf 3-6 and every exact method; fixed-alpha_em QED kernel: same with shifted beta0, contracted "
+              "gammas and the pure-QED factor. With FTC + ODE uniqueness (trusted lemmas) this is the statement for all inputs."),
+        note=COMMON_NOTE + "Lemmas: chain rule, FTC, uniqueness of linear ODE solutions. Assumed: np.real(delta/Delta) is the identity; no branch cut of the complex logs is crossed at order 4; denominators non-zero in the perturbative range.",
+        technique="contract-based deductive verification: symbolic execution + formal differentiation + exact polynomial normal form; modular use of the roots() contract",
+        design_ref="DESIGN.md section 2, C07",
+    ),
+    "C13": dict(
+        category="proof",
+        text=("Every exact integral: derivative w.r.t. a1 times the truncated beta function equals a1^k, and value 0 at a1=a0 (FTC lemma) -- "
+              "including j34/j24 with the sqrt(4 b2 - b1^2) atom reduced by its defining relation (valid for real and imaginary Delta) and "
+              "the order-4 integrals for arbitrary roots; every expanded integral equals the termwise-integrated Taylor polynomial generated "
+              "mechanically from the integrand; roots(): all three Vieta relations (hence exactly the three roots, any branch of the radicals)."),
+        note=COMMON_NOTE + "Lemma FTC. Atom relations sqrt^2, cbrt^3, I^2=-1. Float cancellation behaviour (nf=6) is not modelled (A1).",
+        technique="contract-based deductive verification: formal differentiation of the executed term + exact normal form modulo radical relations",
+        design_ref="DESIGN.md section 2, C13",
+    ),
+    "C19": dict(
+        category="proof",
+        text=("Atlas.path / matched_path / nf_default executed symbolically for all 16 (+4 default-nf) pairs x 4 patterns of infinite walls with "
+              "symbolic scales (0 <= c <= b <= t, coincident allowed); every feasible path (z3) is checked clause by clause against the statement; "
+              "structural clauses are identities of terms, nf_default is an LRA obligation."),
+        note=COMMON_NOTE + "np.digitize modelled as #{bins <= x}; infinity as a maximal element that only supports comparisons.",
+        technique="contract-based deductive verification: path-exhaustive symbolic execution with z3 feasibility + LRA obligations",
+        design_ref="DESIGN.md section 2, C19",
+    ),
+    "C21": dict(
+        category="proof",
+        text=("The specification series A(a',L), the re-expanded anomalous dimensions and the truncated path-ordered exponential are generated "
+              "mechanically (Picard iteration in a truncated series ring) from the RG equation; gamma_variation, the expanded kernels "
+              "(commuting symbols and free non-commuting symbols, abstract matrix dimension) and all QED variants (orders (1-4,0-2), running "
+              "on/off) are executed on symbolic input and proved equal coefficient by coefficient in L, for symbolic nf; 'always returns' "
+              "is the implicit no-None/no-exception clause."),
+        note=COMMON_NOTE + "Lemma: uniqueness of formal power-series solutions of the RG ODEs. Literature beta coefficients from C20's table.",
+        technique="contract-based deductive verification: symbolic execution over truncated series and the free algebra + exact normal form",
+        design_ref="DESIGN.md section 2, C21",
+    ),
     "C20": dict(
         category="proof",
         text=("Every coefficient function of eko/beta.py and eko/gamma.py is executed symbolically (nf a real indeterminate for QCD; "
